@@ -113,8 +113,23 @@ fn gen_usart_body(r: &mut Rng, i: u64) -> Vec<u8> {
             }
         }
         3 => {
-            // COBS corner cases: 0xff chains, bodies ending inside a run, embedded zeros
-            match r.below(4) {
+            // COBS corner cases: 0xff chains, bodies ending inside a run, embedded zeros, leading idle zeros
+            match r.below(6) {
+                4 => {
+                    // one to three 0x00 bytes (which a streaming decoder skips while idle) in front of the COBS encoding of a
+                    // message of 0..=7 bytes: the encoded body can be long enough while the decoded frame is too short
+                    let mut v = vec![0u8; 1 + r.below(3) as usize];
+                    let n = r.below(8) as usize;
+                    let msg: Vec<u8> = (0..n).map(|_| if r.below(4) == 0 { 0 } else { r.byte() }).collect();
+                    v.extend(refenc::cobs(&msg));
+                    v
+                }
+                5 => {
+                    // the same in front of a valid frame encoding
+                    let mut v = vec![0u8; 1 + r.below(3) as usize];
+                    v.extend(refenc::usart(&gen_frame(r, true)));
+                    v
+                }
                 0 => {
                     let mut v = vec![0xff];
                     v.extend((0..254).map(|_| 1 + r.below(255) as u8));
